@@ -68,8 +68,13 @@ Theorem C05_one_code_per_annotation :
     end.
 Proof. exact phases_exclusive. Qed.
 
-(* (5) signature comparison (library model of types.Identical): an equivalence; aliases are transparent; basic types by kind
+(* (5) signature comparison (library model of types.Identical): two types are identical iff their normal forms - aliases removed at
+   every depth, basic types by kind, printed strings dropped - are EQUAL terms; hence an equivalence; aliases are transparent; basic types by kind
    (byte = uint8, rune = int32); the pointer depth counts; an exact copy of a signature matches; a match needs equal arities *)
+Theorem C05_identical_is_equality_of_normal_forms :
+  forall a b, identical a b = true <-> norm a = norm b.
+Proof. exact identical_iff. Qed.
+
 Theorem C05_identical_equivalence :
   (forall t, identical t t = true) /\ (forall a b, identical a b = identical b a) /\
   (forall a b c, identical a b = true -> identical b c = true -> identical a c = true).
@@ -112,6 +117,7 @@ Print Assumptions C05_listed_methods.
 Print Assumptions C05_method_has_counterpart.
 Print Assumptions C05_correct_annotation_is_silent.
 Print Assumptions C05_one_code_per_annotation.
+Print Assumptions C05_identical_is_equality_of_normal_forms.
 Print Assumptions C05_identical_equivalence.
 Print Assumptions C05_identical_structure.
 Print Assumptions C05_signature_matching.
